@@ -37,6 +37,9 @@ pub struct RunCfg {
     pub build_label: String,
     /// (stage arm id, run index) pairs not to execute: fatal runs outside this property's scope
     pub skip: Vec<(u64, u64)>,
+    /// print "RUN <stage arm id> <index> <point>" before every run (Miri slice: names the run in which
+    /// the interpreter stopped)
+    pub announce: bool,
 }
 
 #[derive(Clone, Copy, Debug, PartialEq, Eq)]
@@ -240,6 +243,7 @@ fn restrict_applies(stage: &Stage, cfg_codec: Option<&str>) -> bool {
     }
 }
 
+pub static ANNOUNCE: std::sync::atomic::AtomicBool = std::sync::atomic::AtomicBool::new(false);
 pub static HEART_STAGE: std::sync::atomic::AtomicU64 = std::sync::atomic::AtomicU64::new(0);
 pub static HEART_INDEX: [std::sync::atomic::AtomicU64; 64] = [const { std::sync::atomic::AtomicU64::new(0) }; 64];
 pub static HEART_POINT: [std::sync::atomic::AtomicU64; 64] = [const { std::sync::atomic::AtomicU64::new(0) }; 64];
@@ -324,11 +328,17 @@ pub fn run_stage_range(
                                     }
                                 }
                                 HEART_POINT[w].store(k as u64, Relaxed);
+                                if ANNOUNCE.load(Relaxed) {
+                                    eprintln!("RUN {} {} {}", stage.arm_id, i, k);
+                                }
                                 let rep = run_plan(p, false);
                                 acc.add(stage, i.wrapping_mul(1 << 20).wrapping_add(k as u64), p, rep, property, false);
                             }
                         } else {
                             let plan = plan_for(stage, seed, &restrict);
+                            if ANNOUNCE.load(Relaxed) {
+                                eprintln!("RUN {} {} 0", stage.arm_id, i);
+                            }
                             let rep = run_plan(&plan, false);
                             acc.add(stage, i, &plan, rep, property, keep_digests);
                         }
@@ -414,6 +424,7 @@ pub fn run(cfg: &RunCfg) -> u8 {
     if let Some(h) = &cfg.hang_file {
         start_watchdog(h.clone());
     }
+    ANNOUNCE.store(cfg.announce, std::sync::atomic::Ordering::Relaxed);
     for s in &st {
         let ts = Instant::now();
         let to = match cfg.stop {
